@@ -14,7 +14,8 @@ RULE = (
     "through-spelling ('-', en/em dash, through, thru, thru., to), connective (', ' ' and ' ' & ' ', and ' '; ' line break) "
     "with the list wrapping onto the next line before or after a connective, and optional repetition of the keyword before an "
     "item or after a 'through'; optionally the same text is first read under other settings (copy_all, sec_colon_required, segment, "
-    "another layout, a dry run) since the expansion may not depend on that. Expected expansion is computed from the "
+    "another layout, a dry run) since the expansion may not depend on that; sections are also parsed under the colon modes (with the colon "
+    "after the list left out for the cautious mode), segment and parse_qq, and find_sec is given texts with two separate lists. Expected expansion is computed from the "
     "model. Non-trivial: >= 2 items with at least one range. Distinct = distinct (model, rendering)."
 )
 ASSUMPTIONS = [
@@ -34,9 +35,16 @@ SEC_PRIOR = ["none", "none", "copy_all", "sec_colon_required", "find_sec", "othe
 LOT_PRIOR = ["none", "none", "dry_run", "unparsed_first", "other_depth"]
 
 
+SEC_MODES = ["", "", "", "sec_colon_cautious", "sec_colon_cautious:nocolon", "sec_colon_required", "segment", "segment,sec_colon_cautious:nocolon", "parse_qq"]
+
+
 def sec_case(long=False):
     return st.fixed_dictionaries({"lst": L.long_rendered_list("sec", 99) if long else L.rendered_list("sec", 99), "layout": st.sampled_from(sorted(LAYOUTS)),
-                                  "prior": st.sampled_from(SEC_PRIOR)})
+                                  "prior": st.sampled_from(SEC_PRIOR),
+                                  # a second, separate list in the same text (find_sec reports both, one after the other)
+                                  "lst2": st.one_of(st.none(), L.rendered_list("sec", 99, 3)),
+                                  # parse modes under which the expansion (and the non-sequential warning) must be the same
+                                  "mode": st.sampled_from(SEC_MODES)})
 
 
 def lot_case(long=False):
@@ -78,6 +86,10 @@ def classes(c):
     if "layout" in c:
         out.append(c["layout"])
     out.append(f"prior={c.get('prior', 'none')}")
+    if "layout" in c:
+        out.append(f"mode={c.get('mode', '')}")
+        if c.get("lst2"):
+            out.append("two_lists")
     if any("\n" in x for k in ("connect", "through") for x in r[k][:len(items)]):
         out.append("wraps_onto_next_line")
     out.append("items>=25" if len(items) >= 25 else "items>=7" if len(items) >= 7 else "items<=6")
@@ -107,7 +119,18 @@ def sec_oracle(c):
     got = find_sec(text)
     if got != exp:
         fails.append(Failure("find_sec", f"find_sec({text!r}) = {got}, expected {exp}", text=text, got=got, want=exp))
-    d = PLSSDesc(full)
+    if c.get("lst2"):
+        text2 = L.render(c["lst2"]["items"], c["lst2"]["r"])
+        both = f"{text}: NE/4;\n{text2}: W/2"
+        exp2 = exp + [f"{n:02d}" for n in L.expand(c["lst2"]["items"])]
+        got2 = find_sec(both)
+        if got2 != exp2:
+            fails.append(Failure("find_sec_two_lists", f"find_sec({both!r}) = {got2}, expected {exp2}", text=both, got=got2, want=exp2))
+    mode = c.get("mode", "")
+    cfg = mode.replace(":nocolon", "")
+    if mode.endswith(":nocolon") and c["layout"] in ("TRS_desc", "S_desc_TR"):
+        full = full.replace(": NE/4", " NE/4")          # the cautious mode picks a colon-less section up in its second pass
+    d = PLSSDesc(full, config=cfg)
     secs = [t.sec for t in d.tracts]
     if secs != exp:
         fails.append(Failure(f"plss_secs", f"PLSSDesc({full!r}) sections {secs}, expected {exp}",
@@ -173,7 +196,7 @@ SUBS = [
     Sub("sections", sec_oracle, strategy=lambda tier: sec_case(), nontrivial=nontrivial, classes=classes, render=render_sec, validate=validate,
         n={"quick": 1200, "thorough": 30000}, shards={"quick": 8, "thorough": 16},
         essential=("has_descending", "keyword_after_through", "keyword_repeated", "mixed_connectives", "wraps_onto_next_line",
-                   "prior=copy_all", "prior=sec_colon_required") + tuple(LAYOUTS)),
+                   "prior=copy_all", "prior=sec_colon_required", "two_lists", "mode=sec_colon_cautious:nocolon", "mode=segment") + tuple(LAYOUTS)),
     Sub("lots", lot_oracle, strategy=lambda tier: lot_case(), nontrivial=nontrivial, classes=classes, render=render_lot, validate=validate,
         n={"quick": 1200, "thorough": 30000}, shards={"quick": 8, "thorough": 16},
         essential=("has_descending", "keyword_after_through", "three_digit")),
